@@ -307,6 +307,8 @@ def run(plan, tier, specs=None):
             extra_cov, extra_viol, inc = None, None, None
             if plan.native:
                 extra_cov, extra_viol, inc = plan.native(tier, seed, scratch)
+                if extra_cov is None:
+                    extra_cov, extra_viol, inc = None, None, None
             if plan.post:
                 plan.post(results)
         except (build.BuildError, subprocess.TimeoutExpired) as e:
